@@ -24,19 +24,19 @@ DIMS = {
     "keep": [False, True],
     "fmt": ["glyf_colr_1", "cff_colr_1", "cff2_colr_1"],
     "outline": ["ell", "tri", "blob", "quad", "oval", "ring"],
-    "stack": ["base", "one", "three", "three_rev", "four"],
-    "place": ["t", "id", "r90", "r180", "r30", "r45", "r1", "mx", "my", "md", "s2", "s05", "nu", "nu2", "sk", "out", "tiny", "tinycopy", "near", "off05", "far"],
+    "stack": ["base", "one", "three", "three_rev", "four", "twice"],
+    "place": ["t", "id", "r90", "r180", "r30", "r45", "r1", "mx", "my", "md", "s2", "s05", "nu", "nu2", "nu_int", "sk", "out", "tiny", "tinycopy", "near", "off05", "far"],
     "donor_paint": ["red", "rgba", "rgba_op", "named", "omitted", "omitted_op", "opacity", "current", "current_op", "var", "var_op"],
     "copy_paint": ["blue", "same", "black", "alpha", "current", "var", "lin_bbox", "lin_user", "rad_bbox", "rad_focal_fr", "rad_user_gt"],
     "twin": ["none", "same_glyph", "cross_glyph"],
     "shared_grad": [False, True],
     "grad_twice": [False, True],
     "vb_b": ["same", "wide", "offset", "half"],
-    "clone": ["none", "wide"],
+    "clone": ["none", "wide", "same"],
     "lin_vec": ["bbox_h", "diag", "vert", "pct", "short", "user"],
     "lin_gt": ["none", "rot", "nonuniform", "skew", "translate", "involutory", "rotscale"],
     "lin_spread": ["pad", "repeat", "reflect"],
-    "lin_stops": ["two", "three", "stopop", "palvar", "pctoff", "shapeop", "dupoff", "unsorted"],
+    "lin_stops": ["two", "three", "stopop", "palvar", "pctoff", "shapeop", "dupoff", "unsorted", "zigzag"],
     "rad_geom": ["c", "focal", "fr", "rpct", "user", "user_focal"],
     "rad_gt": ["none", "rot", "nonuniform", "skew", "translate", "rotscale"],
     "rad_spread": ["pad", "repeat", "reflect"],
@@ -62,6 +62,9 @@ PL = {
     "s05": aff.mul(aff.tr(40, 40), aff.sc(0.5)),
     "nu": aff.mul(aff.tr(5, 30), aff.sc(1.5, 0.6)),
     "nu2": aff.mul(aff.tr(20, 95), aff.sc(1, -1.4)),
+    # a non-uniform scale about a point whose font-space image is integral under the default metrics ((426, 590): 12 units per
+    # design unit, 37.5 units of centring), so that the compiler can say "scale around a centre"
+    "nu_int": aff.around(aff.sc(-1, 0.5), 32.375, 30),  # factors that keep the 3-decimal source coordinates exact (centre (426, 590))
     "sk": aff.mul(aff.tr(0, 20), aff.skew(20, 0)),
     "out": aff.tr(500, 0),
     "near": aff.tr(30, 20),
@@ -132,6 +135,8 @@ def _lin_stops(name):
         # two stops at one offset (a hard edge), and offsets that decrease / leave [0,1] (SVG clamps each to [previous, 1])
         "dupoff": [(0, "red", 1), (0.5, "yellow", 1), (0.5, "blue", 1), (1, "green", 1)],
         "unsorted": [(0.2, "red", 1), (0.1, "yellow", 1), (0.7, "blue", 1), (1.3, "green", 1)],
+        # offsets that go down and then part of the way back up: every one is clamped to the *running maximum*
+        "zigzag": [(0, "red", 1), (0.7, "yellow", 1), (0.3, "blue", 1), (0.5, "green", 1), (1, "purple", 1)],
     }[name]
 
 
@@ -264,6 +269,9 @@ def mk(a):
         a_nodes = [donor, blob]
     elif st == "one":
         a_nodes = [donor]
+    elif st == "twice":  # the same translucent shape stacked twice at the same place: two layers, darker where they overlap
+        x2 = [Shape(P(OUT["tri"], aff.tr(20, 15)), Solid("#0000FF80"), label=f"tri-twice-{i}") for i in (0, 1)]
+        a_nodes = [donor, blob] + x2
     elif st in ("three", "three_rev"):
         extra = Shape(P(OUT["tri"], aff.tr(20, 15)), Solid("#00FF00"), opacity=0.5, label="tri-over")
         a_nodes = [donor, blob, extra] if st == "three" else [extra, blob, donor]
@@ -323,6 +331,9 @@ def mk(a):
         # one more glyph with glyph A's shapes *verbatim* (the same path strings, the same paints) in a viewBox twice as wide:
         # identical source geometry, another place in the em (anything keyed on the source text alone confuses the two)
         glyphs.append(Glyph((0xE004,), (vb[0], vb[1], vb[2] * 2, vb[3]), list(a_nodes)))
+    elif a.get("clone") == "same":
+        # ... or in the very same viewBox: glyphs A, B, A' where the first and the last have equal bounds and B differs
+        glyphs.append(Glyph((0xE004,), vb, list(a_nodes)))
     upem, asc, desc = a["metrics"]
     over = {
         "upem": upem, "ascender": asc, "descender": desc, "width": a["width"], "reuse_tolerance": a["tol"],
